@@ -54,7 +54,7 @@ pub enum Kind {
 
 pub const ALL_KINDS: &[Kind] = &[
     Kind::RetypeLet, Kind::RetypeParam, Kind::RetypeRet, Kind::RetypeBinder, Kind::RetypeAlias, Kind::RetypeCallTy,
-    Kind::CallArity, Kind::TupleArity, Kind::ArrayArity, Kind::PatArity, Kind::ArraySize, Kind::ListBound,
+    Kind::CallArity, Kind::TupleArity, Kind::ArrayArity, Kind::PatArity, Kind::ArraySize, Kind::ListFull, Kind::ListBound,
     Kind::LitOverflow, Kind::LitDigits, Kind::VarUndefined, Kind::VarOther, Kind::SwapStmts, Kind::CallUndefinedFn,
     Kind::AliasUndefined, Kind::JetUndefined, Kind::JetReserved, Kind::PatDupName, Kind::FnDuplicate, Kind::MainDuplicate,
     Kind::MainRemove, Kind::MainParam, Kind::MainResult, Kind::WitnessDup, Kind::WitnessInFn, Kind::MoveItemDown,
@@ -385,7 +385,25 @@ impl<'a> M<'a> {
                 }
                 v.iter_mut().for_each(|x| self.expr(x));
             }
-            Expr::List(v) => v.iter_mut().for_each(|x| self.expr(x)),
+            Expr::List(v) => {
+                // fill the list up to a power of two: exactly as many elements as the smallest bound
+                // that held it (one too many for `List<T, N>`, which holds fewer than N)
+                if !v.is_empty() && self.hit(Kind::ListFull) {
+                    let mut n = 2;
+                    while n <= v.len() {
+                        n *= 2;
+                    }
+                    if self.t.index(4) == 0 {
+                        n *= 2;
+                    }
+                    let x = v[0].clone();
+                    while v.len() < n {
+                        v.push(x.clone());
+                    }
+                    return;
+                }
+                v.iter_mut().for_each(|x| self.expr(x))
+            }
             Expr::Left(x) | Expr::Right(x) | Expr::Some(x) | Expr::Paren(x) => self.expr(x),
             Expr::Block(stmts, last) => self.block(stmts, last),
             Expr::Match { kind, scrut, left, right, .. } => {
